@@ -57,6 +57,48 @@ theorem vcg_sound (p q : Expr) (c : Com) (hv : ∀ v ∈ vcsH p c q, valid v)
 /-- non-vacuity: the loop `Ex.prog` has three `imp.vcg` conditions, all valid. -/
 example : (vcsH Ex.inv Ex.prog Ex.post).length = 3 ∧ vcsH Ex.inv Ex.prog Ex.post = vcsOf Ex.inv Ex.prog Ex.post := by decide
 
+/-! ### the simplifications applied to the conditions are meaning-preserving
+
+`get_vcs` drops a hypothesis that is literally `true` (`ls[i+1] if ls[i] == expr.true`); `imp.vcg_norm`
+unfolds `Entail`, beta-normalises and evaluates the function updates `(s)(a := b s) k`, which in the model
+is the syntactic substitution `subst`. Nothing else is simplified. -/
+
+/-- The `== true` shortcut does not change the meaning of a condition, in any state. -/
+theorem norm_vc_equiv (a b : Expr) (s : State) : holds s (mkVc a b) ↔ holds s (implies a b) :=
+  holds_mkVc_iff a b s
+
+example : mkVc etrue (.bin .le (.int 0) (.var "a")) = .bin .le (.int 0) (.var "a") ∧
+    mkVc (.bin .lt (.int 0) (.var "a")) etrue = implies (.bin .lt (.int 0) (.var "a")) etrue := by decide
+
+/-- Hence the conditions of `get_vcs` are all valid exactly when the conditions of `imp.vcg` are. -/
+theorem vcs_equiv_vcsH (p q : Expr) (c : Com) : (∀ v ∈ vcsOf p c q, valid v) ↔ (∀ v ∈ vcsH p c q, valid v) :=
+  ⟨allValid_getVcsH _, allValid_getVcs _⟩
+
+example : vcsOf etrue Ex.prog Ex.post ≠ vcsH etrue Ex.prog Ex.post := by decide
+
+/-- Evaluating the function update that `assign_rule` introduces is substitution: `Q[x := e]` in `s` is
+`Q` in the updated state (the normalisation `fun_upd_eval_conv` performs on the conditions). -/
+theorem norm_subst_equiv (s : State) (x : String) (e q : Expr) (v : Int) (he : evalE s e = some (.int v)) :
+    evalE s (subst x e q) = evalE (upd s x v) q :=
+  evalE_subst he q
+
+example : evalE (fun _ => 2) (subst "a" (.bin .add (.var "a") (.int 1)) (.bin .le (.var "a") (.int 3))) = some (.bool true) := by decide
+
+/-- Only partial correctness is claimed (by the code and here): all conditions of a program can be valid
+although no execution of it terminates. -/
+theorem vcs_partial_only : ∃ p q c, (∀ v ∈ vcsOf p c q, valid v) ∧ (∀ s, holds s p) ∧ (∀ s, ¬ holds s q) ∧
+    ∀ s s', ¬ Exec c s s' :=
+  ⟨etrue, .bool false, .while (.bool true) etrue .skip,
+   by intro v hv
+      have e : vcsOf etrue (.while (.bool true) etrue .skip) (.bool false) =
+          [etrue, implies (conj etrue (.bool true)) etrue, implies (conj etrue (neg (.bool true))) (.bool false)] := by decide
+      rw [e] at hv
+      simp only [List.mem_cons, List.not_mem_nil, or_false] at hv
+      rcases hv with rfl | rfl | rfl <;> intro s <;> rfl,
+   fun _ => rfl, fun s h => by simp [holds, evalE] at h, no_exec_loop etrue⟩
+
+example : (vcsOf etrue (.while (.bool true) etrue .skip) (.bool false)).length = 3 := by decide
+
 /-! ### the interpreter and the semantics -/
 
 /-- The big-step semantics is deterministic. -/
